@@ -1,3 +1,5 @@
+import XPathV.Lemmas.Facts
+import XPathV.Generated.ExtraFacts
 import XPathV.Lemmas.C07Base
 import XPathV.Lemmas.CmpSem
 /-!
@@ -77,5 +79,28 @@ theorem C07_and_or_any_type (d : Doc) (cfg : ECfg) (l r : Plan) (c : Ref) (va vb
     evalP (F := F) d cfg (.boolean true l r) c = .ok (.bool (Spec.toBool va || Spec.toBool vb)) ∧
     evalP (F := F) d cfg (.boolean false l r) c = .ok (.bool (Spec.toBool va && Spec.toBool vb)) :=
   ⟨evalP_or_spec d cfg l r c va vb hl hr, evalP_and_spec d cfg l r c va vb hl hr⟩
+
+/-! ## T0: what the regenerated facts say about the current source (leaf theorems: nothing builds on them, so a
+change of the source that invalidates one of them stops only this module) -/
+
+/-- T0 (F1): the comparison dispatch matrix has no nil cell and holds the expected cells -/
+theorem cmp_table_ok : Generated.cmpTable =
+    [[some "cmpBooleanBoolean", some "cmpBooleanAny", some "cmpBooleanAny", some "cmpBooleanAny"],
+     [some "cmpAnyBoolean", some "cmpNumericNumeric", some "cmpNumericString", some "cmpNumericNodeSet"],
+     [some "cmpAnyBoolean", some "cmpStringNumeric", some "cmpStringString", some "cmpStringNodeSet"],
+     [some "cmpAnyBoolean", some "cmpNodeSetNumeric", some "cmpNodeSetString", some "cmpNodeSetNodeSet"]] := by decide
+
+/-- T0 (F2): the leaf comparators map each XPath operator to the Go operator of the same meaning,
+with the operands in order -/
+theorem leaf_comparators_ok :
+    Generated.cmpNumOps = [("=", "=="), (">", ">"), ("<", "<"), (">=", ">="), ("<=", "<="), ("!=", "!=")] ∧
+    Generated.cmpStrOps = [("=", "=="), (">", ">"), ("<", "<"), (">=", ">="), ("<=", "<="), ("!=", "!=")] ∧
+    Generated.opFuncs = [("eqFunc", "="), ("gtFunc", ">"), ("geFunc", ">="), ("ltFunc", "<"), ("leFunc", "<="), ("neFunc", "!=")] := by decide
+
+/-- T0 (F2): no comparison cell panics (the pinned number/string and number/node-set cells did) -/
+theorem cells_do_not_panic : Generated.cellPanics.all (fun p => !p.2) = true := by decide
+
+/-- T0: the float arm of `asBool` is "non-zero and not NaN" -/
+theorem asBool_float_arm_ok : Generated.asBoolFloatSrc = "returnv!=0&&!math.IsNaN(v)" := rfl
 
 end XPathV.Theorems.C07
